@@ -50,6 +50,7 @@ type Spec struct {
 	Expr    string            `json:"expr"`    // if set: translate only the right-hand side of the first assignment to this variable
 	Cond    string            `json:"cond"`    // if set: translate only the condition of the first `if` whose printed condition matches this regexp
 	Doc     string            `json:"doc"`
+	Group   string            `json:"group"`   // output module: Rv/Generated/Src<Group>.lean
 }
 
 var fset = token.NewFileSet()
@@ -157,9 +158,11 @@ func recvTypeName(e ast.Expr) string {
 	return "?"
 }
 
+type refusal struct{ msg string }
+
+// the translator never guesses: anything outside the subset aborts the translation of the GROUP being translated
 func fail(format string, a ...any) {
-	fmt.Fprintf(os.Stderr, "go2lean: "+format+"\n", a...)
-	os.Exit(2)
+	panic(refusal{fmt.Sprintf(format, a...)})
 }
 
 func show(n any) string {
@@ -1049,20 +1052,64 @@ func (g *genOut) init() {
 func main() {
 	repo := flag.String("repo", "/repo", "repository root")
 	specFile := flag.String("spec", "", "translation specs (JSON)")
-	out := flag.String("out", "", "output Lean file")
+	out := flag.String("out", "", "output directory (Rv/Generated)")
 	flag.Parse()
 	repoRoot = *repo
 	raw, err := os.ReadFile(*specFile)
 	if err != nil {
-		fail("%v", err)
+		fmt.Fprintln(os.Stderr, "go2lean:", err)
+		os.Exit(3)
 	}
 	var specs []*Spec
 	if err := json.Unmarshal(raw, &specs); err != nil {
-		fail("spec: %v", err)
+		fmt.Fprintln(os.Stderr, "go2lean: spec:", err)
+		os.Exit(3)
 	}
+	groups := []string{}
+	byGroup := map[string][]*Spec{}
+	for _, s := range specs {
+		if _, ok := byGroup[s.Group]; !ok {
+			groups = append(groups, s.Group)
+		}
+		byGroup[s.Group] = append(byGroup[s.Group], s)
+	}
+	status := map[string]string{}
+	for _, grp := range groups {
+		path := filepath.Join(*out, "Src"+grp+".lean")
+		os.Remove(path)
+		text, msg := translateGroup(grp, byGroup[grp])
+		if msg != "" {
+			status[grp] = msg
+			fmt.Fprintf(os.Stderr, "go2lean: group %s REFUSED: %s\n", grp, msg)
+			continue
+		}
+		status[grp] = "ok"
+		if err := os.WriteFile(path, []byte(text), 0o644); err != nil {
+			fmt.Fprintln(os.Stderr, "go2lean:", err)
+			os.Exit(3)
+		}
+	}
+	js, _ := json.Marshal(status)
+	fmt.Println(string(js))
+	for _, v := range status {
+		if v != "ok" {
+			os.Exit(2)
+		}
+	}
+}
+
+func translateGroup(grp string, specs []*Spec) (text string, refused string) {
+	defer func() {
+		if r := recover(); r != nil {
+			if rf, ok := r.(refusal); ok {
+				text, refused = "", rf.msg
+				return
+			}
+			panic(r)
+		}
+	}()
 	var b strings.Builder
 	b.WriteString("/- GENERATED by /verif/tools/go2lean from the current source of /repo. Do not edit.\n   Every definition is the translation of one Go function (or of one expression of it); `none` = Go run-time panic. -/\nimport Rv.Model.SrcViews\nnamespace Rv.Generated.Src\nopen Rv.SrcViews\n\n")
-	// group by package directory
 	byDir := map[string][]*Spec{}
 	dirs := []string{}
 	for _, s := range specs {
@@ -1073,29 +1120,10 @@ func main() {
 		byDir[d] = append(byDir[d], s)
 	}
 	for _, d := range dirs {
-		pkg := loadPkg(filepath.Join(*repo, d))
+		pkg := loadPkg(filepath.Join(repoRoot, d))
 		g := &genOut{}
 		g.init()
 		g.specs = map[string]*Spec{}
-		for _, s := range byDir[d] {
-			k := s.Func
-			if s.Recv != "" {
-				k = s.Recv + "." + s.Func
-			}
-			if s.Expr != "" || s.Cond != "" {
-				k = k + "#" + s.Lean
-				// expression specs use the function body of the named function
-				base := s.Func
-				if s.Recv != "" {
-					base = s.Recv + "." + s.Func
-				}
-				pkg.funcs[k] = pkg.funcs[base]
-				if pkg.funcs[k] == nil {
-					fail("%s: function %s not found in %s", s.Lean, base, d)
-				}
-			}
-			g.specs[k] = s
-		}
 		keys := []string{}
 		for _, s := range byDir[d] {
 			k := s.Func
@@ -1103,8 +1131,14 @@ func main() {
 				k = s.Recv + "." + s.Func
 			}
 			if s.Expr != "" || s.Cond != "" {
+				base := k
 				k = k + "#" + s.Lean
+				pkg.funcs[k] = pkg.funcs[base]
+				if pkg.funcs[k] == nil {
+					fail("%s: function %s not found in %s", s.Lean, base, d)
+				}
 			}
+			g.specs[k] = s
 			keys = append(keys, k)
 		}
 		for _, k := range keys {
@@ -1115,7 +1149,5 @@ func main() {
 		}
 	}
 	b.WriteString("end Rv.Generated.Src\n")
-	if err := os.WriteFile(*out, []byte(b.String()), 0o644); err != nil {
-		fail("%v", err)
-	}
+	return b.String(), ""
 }
